@@ -133,3 +133,69 @@ fn recurrences_in_real_play_are_counted_per_full_position() {
     }
     assert!(recurrences > 200, "the walks produced only {} recurrences (vacuous)", recurrences);
 }
+
+/// games played THROUGH THE GAME API (the way the game loops play: apply by coordinates, then pass the turn on):
+/// shuffling walks in which irreversible moves (captures, pawn moves) are mixed in, so that recurring positions
+/// also arise directly after such a move; after every ply the count the board reports must equal the number of
+/// times this full position has arisen in the game, and the game is reported drawn exactly when that number is 3
+/// (added after seed r12_C17: a table 'pruning' at irreversible moves dropped the entry just registered)
+#[test]
+fn game_api_counts_every_occurrence_also_right_after_irreversible_moves() {
+    use chess::evaluate::GameEnding;
+    use chess::game::game::Game;
+    fn full(b: &Board) -> String {
+        let s = snapshot(b);
+        format!("{:?}|{:?}|{}|{}", s.0, s.1, s.2, s.3)
+    }
+    let mut r = Lcg(99);
+    let (mut recurrences, mut after_irreversible, mut draws) = (0usize, 0usize, 0usize);
+    for walk in 0..120 {
+        let mut mg = MoveGenerator::new();
+        let mut game = Game::new(1);
+        let mut counts: HashMap<String, u8> = HashMap::new();
+        counts.insert(full(game.board()), 1);
+        let mut line: Vec<String> = Vec::new();
+        let mut last: Vec<(Bitboard, Bitboard)> = Vec::new();
+        let mut irreversible_key: Option<String> = None;
+        for ply in 0..60 {
+            let mut b = game.board().clone();
+            let turn = b.turn();
+            let moves = mg.generate_moves(&mut b, turn);
+            if moves.is_empty() { break; }
+            let quiet: Vec<&ChessMove> = moves.iter().filter(|m| m.captures().is_none()
+                && matches!(b.get(m.from_square()), Some((Piece::Knight, _)) | Some((Piece::Rook, _)) | Some((Piece::King, _)) | Some((Piece::Bishop, _)))).collect();
+            let back: Option<ChessMove> = if last.len() >= 2 && r.below(4) != 0 {
+                let (lf, lt) = last[last.len() - 2];
+                quiet.iter().find(|m| m.from_square() == lt && m.to_square() == lf).map(|m| (*m).clone())
+            } else { None };
+            // one ply in twelve is anything at all (pawn moves and captures included); the first ply of every second walk is a pawn's single step
+            let m: ChessMove = if ply == 0 && walk % 2 == 0 {
+                let singles: Vec<&ChessMove> = moves.iter().filter(|m| matches!(b.get(m.from_square()), Some((Piece::Pawn, _))) && (m.to_square().0 == m.from_square().0 << 8)).collect();
+                singles[r.below(singles.len())].clone()
+            } else if let Some(m) = back { m } else if !quiet.is_empty() && r.below(12) != 0 { quiet[r.below(quiet.len())].clone() } else { moves[r.below(moves.len())].clone() };
+            let irreversible = m.captures().is_some() || matches!(b.get(m.from_square()), Some((Piece::Pawn, _)));
+            let promo = matches!(m, ChessMove::PawnPromotion(_));
+            if promo { break; }
+            line.push(m.to_uci());
+            game.apply_chess_move_by_from_to_coordinates(m.from_square(), m.to_square()).unwrap_or_else(|e| panic!("walk {}: {:?} rejected: {:?}", walk, line, e));
+            game.board_mut().toggle_turn();
+            last.push((m.from_square(), m.to_square()));
+            let key = full(game.board());
+            let e = counts.entry(key.clone()).or_insert(0); *e += 1;
+            if irreversible { irreversible_key = Some(key.clone()); }
+            if *e > 1 { recurrences += 1; if irreversible_key.as_ref() == Some(&key) { after_irreversible += 1; } }
+            assert_eq!(game.board().max_seen_position_count(), *e,
+                       "walk {}: after {:?} the position has arisen {} time(s) in this game, the board reports {}", walk, line, *e, game.board().max_seen_position_count());
+            let ending = game.check_game_over_for_current_turn();
+            if *e >= 3 {
+                assert!(matches!(ending, Some(GameEnding::Draw)), "walk {}: third occurrence after {:?} must be reported as drawn, got {:?}", walk, line, ending);
+                draws += 1;
+                break;
+            } else if game.board().halfmove_clock() < 100 {
+                assert!(!matches!(ending, Some(GameEnding::Draw)) || { let mut bb = game.board().clone(); let t = bb.turn(); mg.generate_moves(&mut bb, t).is_empty() },
+                        "walk {}: drawn after {:?} although no position has occurred three times (count {})", walk, line, *e);
+            }
+        }
+    }
+    assert!(recurrences > 100 && after_irreversible > 20 && draws > 20, "vacuous: {} recurrences, {} of the position right after an irreversible move, {} draws", recurrences, after_irreversible, draws);
+}
